@@ -2,25 +2,25 @@
 From Bifrost Require Export Lib.Base Lib.StrOps Handlers.Model.
 
 Inductive c34_case :=
-| HEcho (cfg_proto cfg_local : bytes) (s : stream) (obs : bool)
-| HFwd (cfg_proto cfg_local : bytes) (s : stream) (obs : bool)
-| HRelay (cfg_proto cfg_src : bytes) (s : stream) (obs : bool)
-| HAccept (cfg_proto cfg_local : bytes) (cfg_remotes : list bytes) (s : stream) (obs : bool)
-| HSrpc (cfg_protos cfg_peer_strs : list bytes) (s : stream) (local_str : bytes) (obs : bool)
-| HPubsub (cfg_proto : bytes) (s : stream) (obs : bool)
+| HEcho (c : echo_cfg) (s : stream) (obs : bool)
+| HFwd (c : fwd_cfg) (s : stream) (obs : bool)
+| HRelay (c : relay_cfg) (s : stream) (obs : bool)
+| HAccept (c : accept_cfg) (s : stream) (obs : bool)
+| HSrpc (c : srpc_cfg) (s : stream) (local_str : bytes) (obs : bool)
+| HPubsub (c : pubsub_cfg) (s : stream) (obs : bool)
 (* obs_kind: 0 declined, 1 control handler, 2 solicited handler (with its hash string), 3 panic *)
-| HSolicit (s : stream) (obs_kind : nat) (obs_hash : bytes).
+| HSolicit (c : solicit_cfg) (s : stream) (obs_kind : nat) (obs_hash : bytes).
 
 Definition c34_agree (c : c34_case) : bool :=
   match c with
-  | HEcho p l s o => Bool.eqb (echo_offers p l s) o
-  | HFwd p l s o => Bool.eqb (forwarding_offers p l s) o
-  | HRelay p l s o => Bool.eqb (relay_offers p l s) o
-  | HAccept p l r s o => Bool.eqb (accept_offers p l r s) o
-  | HSrpc ps strs s ls o => Bool.eqb (srpc_offers ps strs s ls) o
-  | HPubsub p s o => Bool.eqb (pubsub_offers p s) o
-  | HSolicit s k h =>
-      match solicit_offers s with
+  | HEcho c s o => Bool.eqb (echo_offers c s) o
+  | HFwd c s o => Bool.eqb (forwarding_offers c s) o
+  | HRelay c s o => Bool.eqb (relay_offers c s) o
+  | HAccept c s o => Bool.eqb (accept_offers c s) o
+  | HSrpc c s ls o => Bool.eqb (srpc_offers c s ls) o
+  | HPubsub c s o => Bool.eqb (pubsub_offers c s) o
+  | HSolicit c s k h =>
+      match solicit_offers c s with
       | Ok SNone => Nat.eqb k 0
       | Ok SControl => Nat.eqb k 1
       | Ok (SSolicited h') => Nat.eqb k 2 && bytes_eqb h h'
